@@ -13,6 +13,8 @@ configurations (constants overridden per tier below):
                 3 -> heap(6) -> 12 -> 24 -> 48 (AddFill = fill exactly to capacity, AddHandle = one more)
   SP_deep.cfg   one/two objects, add/pop/merge only, up to the 48 -> 96 doubling (thorough)
 """
+from collections import deque
+
 import vlib
 from framework import graph_replay
 
@@ -35,8 +37,141 @@ def hdr(k, st0):
     return {"mode": st0["mode"], "maxh": n, "maxobj": len(st0["sp"]), "alt": k % 2}
 
 
-def opset(ops):
-    return "{" + ", ".join('"%s"' % o for o in ops) + "}"
+def fast_cover_paths(g, rng, max_paths=None, full=True, max_len=400, want_terminal=True):
+    """Edge cover by root-to-terminal paths, linear in the size of the result (vlib.cover_paths runs a
+    whole-graph BFS whenever a walk gets stuck, which is quadratic on wide, shallow graphs).
+    Same contract as vlib.cover_paths: returns (paths, covered, total), path = (init, [(label, dst)...])."""
+    out = {n: [(l, d) for (l, d) in es if d != n] for n, es in g.edges.items()}
+    total = sum(len(v) for v in out.values())
+    # shortest way from an initial state to every node
+    parent = {}
+    order = []
+    dq = deque()
+    for r in g.init:
+        if r not in parent:
+            parent[r] = None
+            dq.append(r)
+    while dq:
+        n = dq.popleft()
+        order.append(n)
+        for i, (l, d) in enumerate(out[n]):
+            if d not in parent:
+                parent[d] = (n, i)
+                dq.append(d)
+    # shortest way to a terminal state
+    rev = {}
+    for n, es in out.items():
+        for (l, d) in es:
+            rev.setdefault(d, []).append(n)
+    dist = {}
+    dq = deque(n for n in out if not out[n])
+    for n in dq:
+        dist[n] = 0
+    while dq:
+        n = dq.popleft()
+        for p in rev.get(n, ()):
+            if p not in dist:
+                dist[p] = dist[n] + 1
+                dq.append(p)
+    unc = {n: list(range(len(es))) for n, es in out.items()}
+    for n in unc:
+        rng.shuffle(unc[n])
+    ncov = [0]
+    covered = set()
+
+    def take(n, i):
+        if (n, i) not in covered:
+            covered.add((n, i))
+            ncov[0] += 1
+
+    def pop_unc(n):
+        u = unc[n]
+        while u:
+            i = u.pop()
+            if (n, i) not in covered:
+                return i
+        return None
+
+    def near(src, budget=48):
+        """bounded breadth-first look-ahead for a node that still has an uncovered out-edge"""
+        seen = {src: None}
+        q = deque([src])
+        while q and budget > 0:
+            n = q.popleft()
+            budget -= 1
+            for i, (l, d) in enumerate(out[n]):
+                if d in seen:
+                    continue
+                seen[d] = (n, i)
+                if any((d, k) not in covered for k in unc[d]):
+                    path = []
+                    x = d
+                    while seen[x] is not None:
+                        path.append(seen[x])
+                        x = seen[x][0]
+                    path.reverse()
+                    return path
+                q.append(d)
+        return None
+
+    paths = []
+    for tgt in order:
+        while True:
+            if max_paths is not None and len(paths) >= max_paths:
+                return paths, ncov[0], total
+            first = pop_unc(tgt)
+            if first is None:
+                break
+            # prefix: initial state -> tgt
+            pre = []
+            x = tgt
+            while parent[x] is not None:
+                pre.append(parent[x])
+                x = parent[x][0]
+            pre.reverse()
+            init = x
+            steps = []
+            for (n, i) in pre:
+                take(n, i)
+                steps.append(out[n][i])
+            cur = tgt
+            i = first
+            while True:
+                take(cur, i)
+                steps.append(out[cur][i])
+                cur = out[cur][i][1]
+                if len(steps) >= max_len:
+                    break
+                i = pop_unc(cur)
+                if i is None:
+                    hop = near(cur)
+                    if hop is None:
+                        break
+                    for (n, k) in hop:
+                        take(n, k)
+                        steps.append(out[n][k])
+                        cur = out[n][k][1]
+                    i = pop_unc(cur)
+                    if i is None:
+                        break
+            if want_terminal:
+                while out[cur] and cur in dist and len(steps) < max_len + 200:
+                    k = min(range(len(out[cur])), key=lambda j: dist.get(out[cur][j][1], 1 << 30))
+                    take(cur, k)
+                    steps.append(out[cur][k])
+                    cur = out[cur][k][1]
+            paths.append((init, steps))
+    return paths, ncov[0], total
+
+
+def replay(ctx, *a, **kw):
+    """graph_replay with the linear-time path cover (the shared one is quadratic on these graphs)"""
+    saved = vlib.cover_paths
+    vlib.cover_paths = fast_cover_paths
+    try:
+        return graph_replay(ctx, *a, **kw)
+    finally:
+        vlib.cover_paths = saved
 
 
 def run(ctx):
@@ -55,7 +190,7 @@ def run(ctx):
         jobs.append(("SP_all.cfg", "all3", {"MaxObj": 3, "MaxH": 4}, full, 1000))
         jobs.append(("SP_deep.cfg", "deep", None, grow, 1000))
     for (cfg, tag, consts, must, rnd) in jobs:
-        graph_replay(ctx, "SuspendPoint", "SuspendPoint", cfg, tag, rp, proj, header_fn=hdr, must_take=must,
+        replay(ctx, "SuspendPoint", "SuspendPoint", cfg, tag, rp, proj, header_fn=hdr, must_take=must,
                      constants=consts, extra_random=rnd, tlc_kw={"workers": 4})
     ctx.assume("handles are coroutines that neither touch the suspend point being operated on nor the ready queue "
                "(re-entrant use of a suspend point from a coroutine it resumes is not modelled)")
